@@ -48,7 +48,12 @@ func (p *Point) UnmarshalCBOR(data []byte) error {
 	if _, err := cbor.Decode(data, &tmp); err != nil {
 		return err
 	}
-	if len(tmp) == 2 {
+	switch len(tmp) {
+	case 0:
+		// Origin point
+		p.Slot = 0
+		p.Hash = nil
+	case 2:
 		slot, ok := tmp[0].(uint64)
 		if !ok {
 			return fmt.Errorf("Point slot must be uint64, got %T", tmp[0])
@@ -59,6 +64,11 @@ func (p *Point) UnmarshalCBOR(data []byte) error {
 		}
 		p.Slot = slot
 		p.Hash = hash
+	default:
+		return fmt.Errorf(
+			"Point must be an empty list or [slot, hash], got %d elements",
+			len(tmp),
+		)
 	}
 	return nil
 }
